@@ -184,7 +184,22 @@ theorem walk_step {U met S : P → Prop} {p κ : P} {own : Option P}
       · exact Or.inl (Or.inr ⟨suf, ho, hk⟩)
       · exact Or.inr ⟨q ++ s, Or.inr ⟨s, hs, rfl⟩, hsκ⟩
     · exact Or.inr ⟨q, Or.inl ⟨hq, e⟩, hqκ⟩
+/-- a common prefix can be cancelled: the order of `p ++ x` and `p ++ y` is the order of `x` and `y`
+    (used by the iterator contracts: the first key below an extension / a branch slot) -/
+theorem lt_append_left : ∀ (p x y : P), lt (p ++ x) (p ++ y) ↔ lt x y
+  | [], x, y => by simp
+  | a :: p, x, y => by
+    simp only [List.cons_append, lt]
+    constructor
+    · intro h
+      rcases h with h | ⟨_, h⟩
+      · exact absurd h (Nat.lt_irrefl a)
+      · exact (lt_append_left p x y).mp h
+    · intro h
+      exact Or.inr ⟨trivial, (lt_append_left p x y).mpr h⟩
 end Fog
+#print axioms Fog.lt_irrefl
+#print axioms Fog.lt_append_left
 #print axioms Fog.nibs_lt
 #print axioms Fog.walk_step
 #print axioms Fog.between
